@@ -314,3 +314,69 @@ Definition scalars_behaved (s : schema) : Prop :=
 (* field names of an input object type are distinct (schema validation) *)
 Definition fields_unique (s : schema) : Prop :=
   forall n fs, alookup n s = Some (TDInput fs) -> NoDup (map f_name fs).
+
+(* ---- the property's full demand: [wrong_full] is [wrong] without the guard
+   on the scalar clause (every foreign JSON kind counts) ---- *)
+Inductive wrong_full (s : schema) : ity -> json -> Prop :=
+| WF_null t : ity_nn t = true -> wrong_full s t JNull
+| WF_kind nn n k j :
+    alookup n s = Some (TDScalar k) -> scalar_kind_foreign k j -> wrong_full s (INamed nn n) j
+| WF_range nn n z :
+    alookup n s = Some (TDScalar KInt) -> in_int32 z = false -> wrong_full s (INamed nn n) (JInt z)
+| WF_enum_name nn n vals nm :
+    alookup n s = Some (TDEnum vals) -> alookup nm vals = None -> wrong_full s (INamed nn n) (JStr nm)
+| WF_enum_kind nn n vals j :
+    alookup n s = Some (TDEnum vals) -> (forall x, j <> JStr x) -> j <> JNull -> wrong_full s (INamed nn n) j
+| WF_obj_kind nn n fs j :
+    alookup n s = Some (TDInput fs) -> (forall kvs, j <> JObj kvs) -> j <> JNull -> wrong_full s (INamed nn n) j
+| WF_unknown_field nn n fs kvs k :
+    alookup n s = Some (TDInput fs) -> In k (map fst kvs) -> find_field k fs = None ->
+    wrong_full s (INamed nn n) (JObj kvs)
+| WF_missing nn n fs kvs f :
+    alookup n s = Some (TDInput fs) -> In f fs -> ity_nn (f_ty f) = true -> f_default f = None ->
+    alookup (f_name f) kvs = None -> wrong_full s (INamed nn n) (JObj kvs)
+| WF_field nn n fs kvs f j :
+    alookup n s = Some (TDInput fs) -> In f fs -> alookup (f_name f) kvs = Some j ->
+    wrong_full s (f_ty f) j -> wrong_full s (INamed nn n) (JObj kvs)
+| WF_item nn t js j :
+    In j js -> wrong_full s t j -> wrong_full s (IList nn t) (JList js)
+| WF_single nn t j :
+    plain_json j = true -> wrong_full s t j -> wrong_full s (IList nn t) j.
+
+(* somewhere inside the value, at a scalar position, stands one of the two
+   pinned lenient cases *)
+Inductive lenient_inside (s : schema) : ity -> json -> Prop :=
+| LI_here nn n k j :
+    alookup n s = Some (TDScalar k) -> scalar_kind_foreign k j -> lenient_scalar_case k j = true ->
+    lenient_inside s (INamed nn n) j
+| LI_field nn n fs kvs f j :
+    alookup n s = Some (TDInput fs) -> In f fs -> alookup (f_name f) kvs = Some j ->
+    lenient_inside s (f_ty f) j -> lenient_inside s (INamed nn n) (JObj kvs)
+| LI_item nn t js j :
+    In j js -> lenient_inside s t j -> lenient_inside s (IList nn t) (JList js)
+| LI_single nn t j :
+    plain_json j = true -> lenient_inside s t j -> lenient_inside s (IList nn t) j.
+
+(* exactly which lenient cases the code accepts *)
+Definition lenient_accepts (k : scalar_kind) (j : json) : bool :=
+  match k, j with
+  | KInt, JStr x =>
+      match clean_num_text x with
+      | None => false
+      | Some y =>
+          match parse_int_text y with
+          | Some z => in_int32 z
+          | None => match dec_of_text y with
+                    | Some d => match dec_integral d with Some z => in_int32 z | None => false end
+                    | None => false
+                    end
+          end
+      end
+  | KFloat, JStr x =>
+      match clean_num_text x with
+      | Some y => match dec_of_text y with Some _ => true | None => false end
+      | None => false
+      end
+  | KString, (JInt _ | JFloat _) => true
+  | _, _ => false
+  end.
